@@ -510,3 +510,7 @@ def run(ctx):
     r3(ctx)
     r4(ctx)
     r5(ctx)
+    import rules.C08 as c08
+    ctx.borrow(c08.r3, {'C08.R3': 'C12.R6'},
+               'the identification of a telegram depends only on its bytes and the loaded definitions: the probe bounds '
+               'm_maxIdLength / m_maxBroadcastIdLength must not depend on the order in which definitions were added')
